@@ -16,7 +16,8 @@ def sysroot():
 
 
 def build_driver():
-    if os.path.exists(DRV):
+    src = os.path.join(lib.VERIF, "engine-flow", "src", "main.rs")
+    if os.path.exists(DRV) and os.path.getmtime(DRV) >= os.path.getmtime(src):
         return
     r = subprocess.run(["cargo", "+nightly", "build", "--release", "--offline"], cwd=os.path.join(lib.VERIF, "engine-flow"), capture_output=True, text=True)
     if r.returncode != 0:
@@ -61,7 +62,10 @@ def extract(root, out, target):
 
 
 def facts(root, tier="quick"):
-    h = lib.tree_hash(root)[:20]
+    import hashlib
+
+    drv_src = open(os.path.join(lib.VERIF, "engine-flow", "src", "main.rs"), "rb").read()
+    h = hashlib.sha256((lib.tree_hash(root) + hashlib.sha256(drv_src).hexdigest()).encode()).hexdigest()[:20]
     base = os.path.join(lib.CACHE, "flow")
     os.makedirs(base, exist_ok=True)
     out = os.path.join(base, "facts-" + h)
